@@ -96,8 +96,11 @@ EXCLUDES = {
     "a_is_first": lambda d: d.get("a") == "a0",
     "b_is_last": lambda d: d.get("b") == "b1",
     "c_first": lambda d: d.get("c") == "c0",
+    "d_first": lambda d: d.get("d") == "d0",
+    "f_last": lambda d: d.get("f") == "f1",
 }
-_OWN = {"sum_ab": {"a", "b"}, "dbl_a": {"a"}, "neg_c": {"c"}, "a_is_first": {"a"}, "b_is_last": {"b"}, "c_first": {"c"}}
+_OWN = {"sum_ab": {"a", "b"}, "dbl_a": {"a"}, "neg_c": {"c"}, "a_is_first": {"a"}, "b_is_last": {"b"}, "c_first": {"c"},
+        "d_first": {"d"}, "f_last": {"f"}}
 
 
 def mk(sw: dict):
@@ -224,6 +227,13 @@ def _multi_cases(tier, rng):
                 sw["constants"] = {f"const_{g[0]}": 1}
             ops.append(sw)
         yield {"ops": ops, "kind": rng.choice(("product", "add"))}
+    # products of 3 and 4 operands in which *every* operand excludes something of its own
+    full = {"a": ["a0", "a1"], "b": ["b0", "b1"], "c": ["c0", "c1", "c2"], "d": ["d0", "d1"], "f": ["f0", "f1", "f2"]}
+    pool = [("a", "a_is_first"), ("b", "b_is_last"), ("c", "c_first"), ("d", "d_first"), ("f", "f_last")]
+    for _ in range(40 if tier == "quick" else 400):
+        chosen = rng.sample(pool, rng.choice((3, 3, 4)))
+        ops = [{"items": {k: list(full[k])}, "dims": None, "exclude": e} for k, e in chosen]
+        yield {"ops": ops, "kind": "product"}
 
 
 def _check_multi(case):
@@ -314,6 +324,11 @@ def _count_cases(tier, rng):
         if set(sw["items"]) != {"a", "b", "c"} or sw.get("derivers") or sw.get("constants"):
             continue
         yield {"sweep": sw, "use_pandas": rng.random() < 0.3}
+    # full products in every key order (the combinations sharing a root tuple are then not adjacent), no pandas
+    for order in itertools.permutations(("a", "b", "c")):
+        items = {k: [f"{k}0", f"{k}1"] for k in order}
+        yield {"sweep": {"items": items, "dims": None}, "use_pandas": False}
+        yield {"sweep": {"items": items, "dims": [(order[0], order[2]), order[1]]}, "use_pandas": False}
 
 
 def _check_count(case):
